@@ -176,15 +176,24 @@ check("C16", "proof",
       "grid; preemption during environment creation) is the bounded stand-in that replays refutations.",
       "contract-based deductive verification of a sufficient condition (thread confinement via frame obligations) + bounded schedule replay", "DESIGN.md 4/C16")
 check("C07", "proof",
-      "Regular-language obligations discharged by z3's regex solver on the patterns extracted from the real grammar and "
-      "decoder: for every string-literal branch of cel.lark, every body the lexer accepts is tokenised completely by "
-      "CEL_ESCAPES_PAT (finditer skips no character); every escape alternative has the fixed width its spelling prescribes "
-      "(2/4/6/10). The escape table of the statement is enumerated (all 256 \\xHH and \\ooo, the ten single-character "
-      "escapes, \\u / \\U samples and boundaries, strings and bytes, both runners).",
-      "the leftmost-first decode loop, slicing per quoting style, numeric spellings (decimal/hex/sign/leading zeros, int64/"
-      "uint64 boundaries, floats) and the encode->evaluate round trip are bounded stand-ins against a reference decoder "
-      "written from the statement (bodies up to length 3-4 over a 16-symbol adversarial alphabet x 8 quoting styles x 2 runners).",
-      "regular-language obligations (z3 regex) + exhaustive finite escape table + bounded-exhaustive decoding differential", "DESIGN.md 4/C07")
+      "celstr() and celbytes() are executed symbolically from their real source on a token  <prefix><quote> m1 m2 <quote>  "
+      "where m1, m2 are ARBITRARY members of two escape kinds of the statement (single-character escapes, \\xHH, \\uHHHH, "
+      "\\UHHHHHHHH, \\ooo, any other character; all pairings, all 8 string and 8 bytes quoting styles incl. raw): on every path the "
+      "result is value(m1) ++ value(m2) with the values written from the statement (hex/octal digit arithmetic over symbolic "
+      "digits, chr, UTF-8 octets), an unrepresentable escape raises only ValueError/OverflowError, the slices handed to "
+      "finditer are exactly the body (z3 strings), and the decoding loops carry no state between matches (AST dataflow), so the "
+      "pairwise result extends to bodies of any length. finditer's contract is justified by regular-language obligations on the "
+      "real CEL_ESCAPES_PAT (each kind is contained in an alternative of its width and no earlier alternative matches where such "
+      "an escape starts). For every string-literal branch of cel.lark every lexable body is tokenised completely (z3 regex); "
+      "every escape alternative has its fixed width. The escape table of the statement is additionally enumerated through both runners.",
+      "z3's character sort ends at U+2FFFF: chr above it and str.encode('utf-8') are uninterpreted function symbols shared by code "
+      "and specification; int(text, base) is exact for ASCII-alphanumeric texts of determined length; re alternation is "
+      "leftmost-first; str.join / bytes(iterable) concatenate. Bounded stand-ins (not counted): numeric spellings (decimal/hex/"
+      "sign/leading zeros, int64/uint64 boundaries, floats) through both runners, the reference-decoder differential (bodies up "
+      "to length 3-4 over a 16-symbol adversarial alphabet x 8 styles x 2 runners) and the encode->evaluate round trip; "
+      "Phase1Transpiler.literal's pasted text is covered by those sweeps and by C03's simulation contracts.",
+      "contract-based deductive verification: symbolic execution of the real celstr/celbytes AST over symbolic escape atoms (z3 strings/ints) "
+      "+ regular-language obligations (z3 regex) + loop-independence dataflow; bounded differential for numeric spellings", "DESIGN.md 4/C07, 9.9")
 check("C06", "proof",
       "Grammar half, decided on the real cel.lark as compiled by lark on every run: the strict LALR(1) analysis reports no "
       "conflict; with helper non-terminals inlined the production set equals, production by production, a canonical "
